@@ -5,7 +5,7 @@
 (* action sequence of every generated behaviour is printed as JSON and     *)
 (* re-executed on the real objects by the harness.                         *)
 (***************************************************************************)
-EXTENDS CoreMC, Json
+EXTENDS CoreMC, Json, SequencesExt
 
 CONSTANT SimDepth
 VARIABLE acts
@@ -21,14 +21,33 @@ SimEnv ==
         /\ UNCHANGED <<unused, faults>>
         /\ acts' = Append(acts, <<"Tick", n, adv>>) /\ lastTick' = n
   \/ \E i, j \in Nodes : Deliver(i, j) /\ UNCHANGED <<unused, faults>> /\ lastTick' = Nil /\ acts' = Append(acts, <<"Deliver", i, j>>)
-  \/ \E n \in SubmitAt, c \in unused :
+  \/ \E n \in SubmitAt, c \in unused \cap Cmds :
+        /\ node[n].alive
         /\ SubmitOp(n, c, CmdSize, TRUE) /\ unused' = unused \ {c} /\ UNCHANGED faults
         /\ lastTick' = Nil /\ acts' = Append(acts, <<"Submit", n, c, [kind |-> "op", size |-> CmdSize]>>)
   \/ \E i, j \in Nodes : /\ i # j /\ {i, j} \in FaultPairs /\ faults < MaxFaults /\ Break(i, j) /\ faults' = faults + 1 /\ UNCHANGED unused
                          /\ lastTick' = Nil /\ acts' = Append(acts, <<"Break", i, j>>)
   \/ \E i, j \in Nodes : Notice(i, j) /\ UNCHANGED <<unused, faults>> /\ lastTick' = Nil /\ acts' = Append(acts, <<"Notice", i, j>>)
   \/ \E i, j \in Nodes : {i, j} \in FaultPairs /\ Connect(i, j) /\ UNCHANGED <<unused, faults>> /\ lastTick' = Nil /\ acts' = Append(acts, <<"Connect", i, j>>)
-  \/ \E fn \in Compactors : ~node[fn].force /\ Compact(fn) /\ UNCHANGED <<unused, faults>> /\ lastTick' = Nil /\ acts' = Append(acts, <<"Compact", fn>>)
+  \/ \E fn \in Compactors : node[fn].alive /\ ~node[fn].force /\ Compact(fn) /\ UNCHANGED <<unused, faults>> /\ lastTick' = Nil /\ acts' = Append(acts, <<"Compact", fn>>)
+  \* membership requests, spare nodes, kills and restarts of journaled nodes, the forked dump writer
+  \/ \E mn \in SubmitAt, mc \in unused \cap MembCids, mv \in MembTargets, mk \in {"add", "rem"} :
+        /\ Membership /\ node[mn].alive
+        /\ SubmitCmd(mn, mc, IF mk = "add" THEN AddCmd(mv) ELSE RemCmd(mv), CmdSize, TRUE)
+        /\ unused' = unused \ {mc} /\ UNCHANGED faults
+        /\ lastTick' = Nil /\ acts' = Append(acts, <<"Submit", mn, mc, [kind |-> mk, x |-> mv]>>)
+  \/ \E st \in Spares, sv \in Nodes :
+        /\ node[sv].alive /\ sv \notin Observers
+        /\ StartFresh(st, node[sv].others \cup {sv, st}) /\ UNCHANGED <<unused, faults>>
+        /\ lastTick' = Nil /\ acts' = Append(acts, <<"Start", st, SetToSeq(node[sv].others \cup {sv, st})>>)
+  \/ \E kn \in CrashNodes : faults < MaxFaults /\ Crash(kn) /\ faults' = faults + 1 /\ UNCHANGED unused
+                              /\ lastTick' = Nil /\ acts' = Append(acts, <<"Crash", kn>>)
+  \/ \E rn \in CrashNodes : Restart(rn) /\ UNCHANGED <<unused, faults>> /\ lastTick' = Nil /\ acts' = Append(acts, <<"Restart", rn>>)
+  \/ \E fc \in Nodes : node[fc].alive /\ Fork /\ DumpFile
+        /\ ChildDone(fc, [sid |-> ToString(<<node[fc].child.content.last.idx, node[fc].term, Len(node[fc].child.content.hist), "f">>), size |-> SnapSize])
+        /\ UNCHANGED <<unused, faults>> /\ lastTick' = Nil /\ acts' = Append(acts, <<"ChildDone", fc>>)
+  \/ \E fk \in Nodes : node[fk].alive /\ Fork /\ DumpFile /\ faults < MaxFaults /\ ChildKilled(fk) /\ faults' = faults + 1 /\ UNCHANGED unused
+                         /\ lastTick' = Nil /\ acts' = Append(acts, <<"ChildKill", fk, 1>>)
 
 SimNext == SimEnv /\ GNext
 SimSpec == SimInit /\ [][SimNext]_simvars
